@@ -132,6 +132,22 @@ def hashSplitUnfixed (l : Bytes) : Res (Bytes × Bytes) :=
     pure (dir, name)
   | none => .panic .explicit
 
+/-! ## the control flow of `GameData::extract` -/
+
+/-- `GameData::extract(path)`: `find_entry` first needs `get_index_filenames(path)?`, i.e.
+`parse_repository_category(path)?`; only then `get_dat_file` calls
+`parse_repository_category(path).unwrap()` — the same pure function of `(&self.repositories, path)`
+(`find_entry` only fills the index cache).  `parse` is the result of that call, `findEntry` the scan of
+the index files, `openDat` = `SqPackData::from_existing(dat_path.to_str()?)`, `read` =
+`read_from_offset`. -/
+def extractFlow {R E D : Type} (parse : Option R) (findEntry : R → Option E)
+    (openDat : R → E → Option D) (read : D → E → Res Unit) : Res Unit := do
+  let r ← Res.ofOption parse
+  let e ← Res.ofOption (findEntry r)
+  let r' ← Res.unwrap parse
+  let d ← Res.ofOption (openDat r' e)
+  read d e
+
 /-! ## repository discovery -/
 
 /-- `Path::file_stem` on a single file name (not `.` / `..`) -/
